@@ -8,6 +8,7 @@ import (
 	"path/filepath"
 	"regexp"
 	"strings"
+	"unicode/utf8"
 
 	"verifharness/gen"
 	"verifharness/mon"
@@ -166,6 +167,7 @@ func (p c17) runAtSh(w *mon.Worker, r *rand.Rand, dir string, traced bool) mon.R
 	words := make([]string, n)
 	res := mon.Result{Tags: []string{"mode:@sh"}}
 	nontrivial := false
+	off := 0 // index of the first string in the document's root list
 	var docsb strings.Builder
 	for i := range strs {
 		strs[i] = c17Str(r)
@@ -175,11 +177,28 @@ func (p c17) runAtSh(w *mon.Worker, r *rand.Rand, dir string, traced bool) mon.R
 		fmt.Fprintf(&docsb, "- %s\n", ref.QuoteJSON(strs[i]))
 	}
 	doc := docsb.String()
+	if r.IntN(3) == 0 {
+		// the same strings reached through YAML aliases: `d` holds the anchored spellings, the items are `*sN`
+		var db, vb strings.Builder
+		db.WriteString("d:\n")
+		for i := range strs {
+			if r.IntN(3) != 0 {
+				fmt.Fprintf(&db, "  - &s%d %s\n", i, ref.QuoteJSON(strs[i]))
+				fmt.Fprintf(&vb, "- *s%d\n", i)
+			} else {
+				fmt.Fprintf(&vb, "- %s\n", ref.QuoteJSON(strs[i]))
+			}
+		}
+		// one document whose root is the list, the anchors live in its first item
+		doc = "- " + strings.ReplaceAll(strings.TrimSuffix(db.String(), "\n"), "\n", "\n  ") + "\n" + vb.String()
+		res.Tags = append(res.Tags, "alias_items")
+		off = 1
+	}
 	res.Case = map[string]any{"strings": strs}
 	res.Sig = fmt.Sprintf("sh|%x", hashStr(strings.Join(strs, "\x00")))
 	res.Nontrivial = nontrivial
 	for i := range strs {
-		out, err, pan := yqx.Eval(fmt.Sprintf(".[%d] | @sh", i), doc, "yaml", "yaml")
+		out, err, pan := yqx.Eval(fmt.Sprintf(".[%d] | @sh", i+off), doc, "yaml", "yaml")
 		res.Evals++
 		if pan != nil || err != nil {
 			res.Verdict = mon.Violated
@@ -189,7 +208,7 @@ func (p c17) runAtSh(w *mon.Worker, r *rand.Rand, dir string, traced bool) mon.R
 		words[i] = strings.TrimSuffix(out, "\n")
 	}
 	// all strings through ONE @sh operator call: each word is what the string gets on its own
-	if allOut, aerr, apan := yqx.Eval("[.[] | @sh]", doc, "yaml", "json"); aerr != nil || apan != nil {
+	if allOut, aerr, apan := yqx.Eval(fmt.Sprintf("[.[%d:][] | @sh]", off), doc, "yaml", "json"); aerr != nil || apan != nil {
 		res.Verdict, res.Detail = mon.Violated, fmt.Sprintf("`[.[] | @sh]` failed: err=%v panic=%v", aerr, apan)
 		return res
 	} else if vs, perr := ref.ParseJSONStream(allOut); perr != nil || len(vs) != 1 || vs[0].K != ref.Seq || len(vs[0].A) != n {
@@ -209,7 +228,7 @@ func (p c17) runAtSh(w *mon.Worker, r *rand.Rand, dir string, traced bool) mon.R
 	if r.IntN(4) == 0 {
 		docf := filepath.Join(dir, "in.yaml")
 		_ = os.WriteFile(docf, []byte(doc), 0o644)
-		br := mon.Run(mon.RunOpts{Dir: dir}, w.YqBin(), ".[0] | @sh", docf)
+		br := mon.Run(mon.RunOpts{Dir: dir}, w.YqBin(), fmt.Sprintf(".[%d] | @sh", off), docf)
 		res.Evals++
 		if br.TimedOut {
 			res.Verdict, res.Detail = mon.Inconclusive, "binary timed out"
@@ -278,7 +297,7 @@ type shRaw struct{ yaml, text string }
 
 var shTyped = []shRaw{
 	{"~", "~"}, {"null", "null"}, {"Null", "Null"}, {"NULL", "NULL"}, {"True", "True"}, {"FALSE", "FALSE"}, {"1.5", "1.5"}, {"-0.0", "-0.0"}, {"0x1F", "0x1F"}, {".inf", ".inf"},
-	{`!!int "80; : > CANARY"`, "80; : > CANARY"}, {`!!int "$(: > CANARY)"`, "$(: > CANARY)"}, {`!!bool "true`+"`: > CANARY`"+`"`, "true`: > CANARY`"},
+	{`!!int "80; : > CANARY"`, "80; : > CANARY"}, {`!!int "$(: > CANARY)"`, "$(: > CANARY)"}, {`!!bool "true` + "`: > CANARY`" + `"`, "true`: > CANARY`"},
 	{`!!float "1.5 2"`, "1.5 2"}, {`!!null "~root"`, "~root"}, {`!!int "*"`, "*"}, {`!!str 12`, "12"}, {`!!int "1'2"`, "1'2"}, {`!custom "a b"`, "a b"}, {`!custom "$x"`, "$x"},
 	{"2001-12-14t21:59:43.10-05:00", "2001-12-14t21:59:43.10-05:00"}, {"!!binary aGVsbG8=", "aGVsbG8="},
 }
@@ -406,6 +425,27 @@ func (p c17) runShellVars(w *mon.Worker, r *rand.Rand, dir string, traced bool) 
 		}
 		return raw
 	}) + "\n"
+	if r.IntN(3) == 0 {
+		// block scalars: the text of `|` / `>` values ends in the line feeds their chomping indicator keeps
+		blk, btexts := c17Blocks(r)
+		if js, jerr, jpan := yqx.Eval("[.[]]", blk, "yaml", "json"); jerr == nil && jpan == nil {
+			if vs, perr := ref.ParseJSONStream(js); perr == nil && len(vs) == 1 && len(vs[0].A) == len(btexts) {
+				agree := true
+				for i, v := range vs[0].A {
+					agree = agree && v.K == ref.Str && v.S == btexts[i]
+				}
+				if agree { // my reading of the block scalars is the decoder's: use them
+					text = "flow: " + text + blk
+					for _, t := range btexts {
+						leaves = append(leaves, shLeaf{t})
+					}
+					res.Tags = append(res.Tags, "block_scalars")
+				} else {
+					res.Tags = append(res.Tags, "block_model_disagrees")
+				}
+			}
+		}
+	}
 	res.Case = map[string]any{"doc": text}
 	res.Sig = fmt.Sprintf("shell|%x", hashStr(text))
 	docf := filepath.Join(dir, "in.yaml")
@@ -514,4 +554,53 @@ func (p c17) runShellVars(w *mon.Worker, r *rand.Rand, dir string, traced bool) 
 	res.Verdict = mon.Held
 	res.Detail = fmt.Sprintf("%d leaves, %d names; e.g. %s=%q", len(leaves), len(order), order[0], final[order[0]])
 	return res
+}
+
+// c17Blocks writes 1..3 top-level keys whose values are literal / folded block scalars with every chomping
+// indicator and returns the document text and the string each value denotes.
+func c17Blocks(r *rand.Rand) (string, []string) {
+	line := func() string {
+		for {
+			s := c17Str(r)
+			ok := s != "" && s[0] != ' ' && s[0] != '\t' && s[0] != '#' && utf8.ValidString(s) && !strings.HasSuffix(s, " ") && !strings.HasSuffix(s, "\t")
+			for _, c := range s {
+				if c < 0x20 || c == 0x7f || (c >= 0x80 && c <= 0x9f) || c == 0x2028 || c == 0x2029 || c == 0xfeff || c == 0xfffe || c == 0xffff {
+					ok = false
+				}
+			}
+			if ok {
+				return s
+			}
+		}
+	}
+	var sb strings.Builder
+	var texts []string
+	n := 1 + r.IntN(3)
+	for i := 0; i < n; i++ {
+		style := "|"
+		nl := 1 + r.IntN(3)
+		if r.IntN(3) == 0 {
+			style, nl = ">", 1
+		}
+		chomp := []string{"", "-", "+"}[r.IntN(3)]
+		var ls []string
+		for j := 0; j < nl; j++ {
+			ls = append(ls, line())
+		}
+		fmt.Fprintf(&sb, "blk%d: %s%s\n", i, style, chomp)
+		for _, l := range ls {
+			sb.WriteString("  " + l + "\n")
+		}
+		txt := strings.Join(ls, "\n")
+		switch chomp {
+		case "":
+			txt += "\n"
+		case "+":
+			extra := r.IntN(3)
+			sb.WriteString(strings.Repeat("\n", extra))
+			txt += "\n" + strings.Repeat("\n", extra)
+		}
+		texts = append(texts, txt)
+	}
+	return sb.String(), texts
 }
